@@ -81,6 +81,8 @@ fn parse_value(v: &[u8]) -> Option<(u64, u64)> {
 
 #[derive(Clone, Debug)]
 struct WOp {
+    t0: u64, // wall clock (us) at invocation / response
+    t1: u64,
     key: u64,
     gen: u64,      // generation number of the state this op leaves (puts and deletes count)
     present: bool, // state after the op
@@ -91,6 +93,8 @@ struct WOp {
 
 #[derive(Clone, Debug)]
 struct ROp {
+    t0: u64,
+    t1: u64,
     key: u64,
     inv: u64,
     res: u64,
@@ -124,13 +128,16 @@ pub fn racechild(opts: &Opts) -> i32 {
     let mut summary = std::collections::BTreeMap::<String, u64>::new();
     for _case in 0..n {
         let _ = std::fs::remove_file(&path);
-        let nkeys = rng.range(3, 6);
-        let blocks = rng.range(44, 72);
-        let cache = rng.chance(1, 2);
-        let ttl = rng.chance(1, 2);
+        // tight: the device has room for every key once plus at most two spare blocks, so a second
+        // copy of a value (update, TTL-only rewrite) often has to wait for a retirement
+        let tight = rng.chance(1, 3);
+        let nkeys = if tight { rng.range(2, 4) } else { rng.range(3, 6) };
+        let blocks = if tight { 16 + nkeys * 2 + rng.range(0, 1) } else { rng.range(44, 72) };
+        let cache = !tight && rng.chance(1, 2);
+        let ttl = tight || rng.chance(1, 2);
         let nwriters = rng.range(1, 2);
         let nreaders = rng.range(2, 3);
-        let wops = rng.range(60, 140);
+        let wops = if tight { rng.range(30, 60) } else { rng.range(60, 140) };
         let sync_path = rng.chance(1, 3);
         feoxdb::verif::dev::set_force_sync_path(sync_path);
         EVENTS.lock().unwrap().clear();
@@ -152,6 +159,7 @@ pub fn racechild(opts: &Opts) -> i32 {
         SLEEP_SEED.store(rng.next(), Ordering::Relaxed);
         SLEEPS_ON.store(true, Ordering::Relaxed);
         let clock = Arc::new(AtomicU64::new(1));
+        let epoch = std::time::Instant::now();
         let done = Arc::new(AtomicBool::new(false));
         let mut whandles = Vec::new();
         for w in 0..nwriters {
@@ -159,20 +167,40 @@ pub fn racechild(opts: &Opts) -> i32 {
             let clock = clock.clone();
             let mut rng = rng.fork();
             whandles.push(std::thread::spawn(move || {
+                let us = move || epoch.elapsed().as_micros() as u64;
                 let mut log: Vec<WOp> = Vec::new();
+                let mut touch: Vec<(u64, u64, u64)> = Vec::new(); // TTL-only rewrites: key, t0, t1
                 let mut gens = vec![0u64; nkeys as usize];
                 let mut present = vec![false; nkeys as usize];
                 let mut ttl_rewrites = vec![0u64; nkeys as usize];
                 for i in 0..wops {
+                    if tight && i == 0 {
+                        // preamble: every key of this writer present and offloaded
+                        for k in (0..nkeys).filter(|k| k % nwriters == w) {
+                            let g = gens[k as usize] + 1;
+                            let v = value_of(k, g, rng.range(4100, 6000) as usize);
+                            let (t0, inv) = (us(), clock.fetch_add(1, Ordering::SeqCst));
+                            let r = store.insert(&key_of(k), &v);
+                            let (res, t1) = (clock.fetch_add(1, Ordering::SeqCst), us());
+                            if r.is_ok() {
+                                gens[k as usize] = g;
+                                present[k as usize] = true;
+                            }
+                            log.push(WOp { t0, t1, key: k, gen: g, present: true, inv, res, ok: r.is_ok() });
+                        }
+                        let _ = store.flush();
+                    }
                     // single writer per key: key k belongs to writer k % nwriters
                     let mine: Vec<u64> = (0..nkeys).filter(|k| k % nwriters == w).collect();
                     if mine.is_empty() {
                         break;
                     }
                     let k = *rng.pick(&mine);
-                    let kind = rng.below(100);
+                    // tight devices: TTL-only rewrites and flushes dominate, so that deferred generations
+                    // (bytes only in the predecessor's extent) meet a full device
+                    let kind = if tight { *rng.pick(&[10u64, 70, 80, 80, 80, 80, 80, 80, 90, 90, 90, 90, 97, 99, 99]) } else { rng.below(100) };
                     if kind < 62 {
-                        let len = match rng.below(4) {
+                        let len = match if tight { 2 } else { rng.below(4) } {
                             0 => rng.range(40, 300),
                             1 => rng.range(3000, 4000),
                             2 => rng.range(4100, 6000),
@@ -180,35 +208,38 @@ pub fn racechild(opts: &Opts) -> i32 {
                         } as usize;
                         let g = gens[k as usize] + 1;
                         let v = value_of(k, g, len);
-                        let inv = clock.fetch_add(1, Ordering::SeqCst);
+                        let (t0, inv) = (us(), clock.fetch_add(1, Ordering::SeqCst));
                         let r = if rng.chance(1, 2) { store.insert(&key_of(k), &v) } else { store.insert_bytes(&key_of(k), bytes::Bytes::from(v)) };
-                        let res = clock.fetch_add(1, Ordering::SeqCst);
+                        let (res, t1) = (clock.fetch_add(1, Ordering::SeqCst), us());
                         if r.is_ok() {
                             gens[k as usize] = g;
                             present[k as usize] = true;
                         }
-                        log.push(WOp { key: k, gen: g, present: true, inv, res, ok: r.is_ok() });
+                        log.push(WOp { t0, t1, key: k, gen: g, present: true, inv, res, ok: r.is_ok() });
                     } else if kind < 76 {
                         let g = gens[k as usize] + 1;
-                        let inv = clock.fetch_add(1, Ordering::SeqCst);
+                        let (t0, inv) = (us(), clock.fetch_add(1, Ordering::SeqCst));
                         let r = store.delete(&key_of(k));
-                        let res = clock.fetch_add(1, Ordering::SeqCst);
+                        let (res, t1) = (clock.fetch_add(1, Ordering::SeqCst), us());
                         if r.is_ok() {
                             gens[k as usize] = g;
                             present[k as usize] = false;
-                            log.push(WOp { key: k, gen: g, present: false, inv, res, ok: true });
+                            log.push(WOp { t0, t1, key: k, gen: g, present: false, inv, res, ok: true });
                         }
                     } else if kind < 86 && ttl {
                         // TTL-only rewrite: same value, new generation of the record (deferred bytes)
-                        let inv = clock.fetch_add(1, Ordering::SeqCst);
+                        let t0 = us();
                         let r = if rng.chance(1, 3) { store.persist(&key_of(k)) } else { store.update_ttl(&key_of(k), rng.range(7200, 100_000)) };
-                        let _ = clock.fetch_add(1, Ordering::SeqCst);
                         if r.is_ok() {
                             ttl_rewrites[k as usize] += 1;
+                            touch.push((k, t0, us()));
                         }
-                        let _ = inv;
                     } else if kind < 96 {
                         let _ = store.flush();
+                    } else if kind == 99 {
+                        // a quiet period: nothing is being rewritten, readers keep reading
+                        let _ = store.flush();
+                        std::thread::sleep(Duration::from_millis(420));
                     } else {
                         std::thread::sleep(Duration::from_millis(rng.range(1, 8)));
                     }
@@ -216,7 +247,7 @@ pub fn racechild(opts: &Opts) -> i32 {
                         let _ = store.flush();
                     }
                 }
-                (log, ttl_rewrites)
+                (log, ttl_rewrites, touch)
             }));
         }
         let mut rhandles = Vec::new();
@@ -226,11 +257,12 @@ pub fn racechild(opts: &Opts) -> i32 {
             let done = done.clone();
             let mut rng = rng.fork();
             rhandles.push(std::thread::spawn(move || {
+                let us = move || epoch.elapsed().as_micros() as u64;
                 let mut log: Vec<ROp> = Vec::new();
                 while !done.load(Ordering::Relaxed) && log.len() < 4000 {
                     let k = rng.below(nkeys);
                     let kind = rng.below(10);
-                    let inv = clock.fetch_add(1, Ordering::SeqCst);
+                    let (t0, inv) = (us(), clock.fetch_add(1, Ordering::SeqCst));
                     let (what, outv): (&'static str, Vec<(u64, Result<Vec<u8>, String>)>) = match kind {
                         0..=3 => ("get", vec![(k, store.get(&key_of(k)).map_err(|e| err_name(&e)))]),
                         4..=6 => ("get_bytes", vec![(k, store.get_bytes(&key_of(k)).map(|b| b.to_vec()).map_err(|e| err_name(&e)))]),
@@ -257,12 +289,12 @@ pub fn racechild(opts: &Opts) -> i32 {
                             Err(e) => ("range", vec![(k, Err(err_name(&e)))]),
                         },
                     };
-                    let res = clock.fetch_add(1, Ordering::SeqCst);
+                    let (res, t1) = (clock.fetch_add(1, Ordering::SeqCst), us());
                     for (key, out) in outv {
                         if what == "cas" && out == Err("nf".to_string()) {
                             continue;
                         }
-                        log.push(ROp { key, inv, res, what, out });
+                        log.push(ROp { t0, t1, key, inv, res, what, out });
                     }
                 }
                 log
@@ -270,9 +302,11 @@ pub fn racechild(opts: &Opts) -> i32 {
         }
         let mut wlog: Vec<WOp> = Vec::new();
         let mut rewrites = vec![0u64; nkeys as usize];
+        let mut touches: Vec<(u64, u64, u64)> = Vec::new();
         for h in whandles {
-            let (l, t) = h.join().unwrap();
+            let (l, t, tc) = h.join().unwrap();
             wlog.extend(l);
+            touches.extend(tc);
             for (i, x) in t.iter().enumerate() {
                 rewrites[i] += x;
             }
@@ -286,8 +320,9 @@ pub fn racechild(opts: &Opts) -> i32 {
         let _ = store.flush();
         // final reads, sequentially
         let fin = clock.fetch_add(1, Ordering::SeqCst);
+        let tfin = epoch.elapsed().as_micros() as u64 + 10_000_000;
         for k in 0..nkeys {
-            rlog.push(ROp { key: k, inv: fin, res: fin + 1, what: "final", out: store.get(&key_of(k)).map_err(|e| err_name(&e)) });
+            rlog.push(ROp { t0: tfin, t1: tfin + 1, key: k, inv: fin, res: fin + 1, what: "final", out: store.get(&key_of(k)).map_err(|e| err_name(&e)) });
         }
         drop(store);
 
@@ -320,8 +355,12 @@ pub fn racechild(opts: &Opts) -> i32 {
                 }
                 Err(e) if e == "stale" => {
                     stats[2] += 1;
-                    let rewritten = wlog.iter().any(|w| w.key == r.key && w.gen > 1 && w.inv < r.res) || rewrites[r.key as usize] > 0 || wlog.iter().any(|w| w.key == r.key && !w.present);
-                    if rewritten { None } else { Some("stale-extent-on-a-key-never-rewritten".to_string()) }
+                    // "being rewritten": an update, delete or TTL-only rewrite of the key overlaps the read,
+                    // or returned less than SLACK before it began (its retirement runs in the background)
+                    const SLACK_US: u64 = 250_000;
+                    let rewritten = wlog.iter().any(|w| w.key == r.key && w.t0 <= r.t1 && r.t0 <= w.t1 + SLACK_US)
+                        || touches.iter().any(|(k, a, b)| *k == r.key && *a <= r.t1 && r.t0 <= *b + SLACK_US);
+                    if rewritten { None } else { Some("stale-extent-on-a-key-that-is-not-being-rewritten".to_string()) }
                 }
                 Err(e) => {
                     stats[4] += 1;
@@ -343,7 +382,7 @@ pub fn racechild(opts: &Opts) -> i32 {
         *summary.entry("pins".into()).or_default() += pins as u64;
         *summary.entry("data-writes".into()).or_default() += evs.iter().filter(|e| e.0 == b'w' && e.1 >= 16).count() as u64;
         out.emit3(
-            &format!("pins cfg=keys{nkeys},blocks{blocks},cache{},ttl{},w{nwriters},r{nreaders},sync{} reads={} pinned={pins} {body}", cache as u8, ttl as u8, sync_path as u8, rlog.len()),
+            &format!("pins cfg=tight{},keys{nkeys},blocks{blocks},cache{},ttl{},w{nwriters},r{nreaders},sync{} reads={} stale={} rewrites={} pinned={pins} {body}", tight as u8, cache as u8, ttl as u8, sync_path as u8, rlog.len(), stats[2], rewrites.iter().sum::<u64>()),
             "ok",
             &verdict,
         );
